@@ -81,4 +81,7 @@ theorem flow_inflight_brackets_goroutine : Ebu.Flow.inflightBracketsGoroutine = 
 /-- OBLIGATION: `Shutdown` waits in a goroutine that then closes `done`; the store is closed only in the `<-done` branch – never in the `<-ctx.Done()` branch, never in the goroutine -/
 theorem flow_shutdown_shape : Ebu.Flow.shutdownShape = true := by decide +kernel
 
+/-- OBLIGATION: `inflight.wait` re-checks the count in a loop around `cond.Wait`, `inflight.done` broadcasts when the count reaches zero (M2w's `Wake.broadcast`) -/
+theorem flow_wait_rechecks_and_done_broadcasts : Ebu.Flow.condVarShape = true := by decide +kernel
+
 end Ebu.Props.C06
